@@ -89,3 +89,10 @@ Definition model_cycle_value : value := VErr CircularRef.
    kept, so at _post_update the map holds every change of the loop ([calc_changes]); [AcquireReset] would drop them. *)
 Inductive changes_acquire := AcquireKeep | AcquireReset.
 Definition model_changes_acquire : changes_acquire := AcquireKeep.
+
+(* --- Engine._recompute_one_cell: an OrderError raised inside the user's code may be swallowed there (IFERROR,
+   try/except); the engine remembers it (_cell_required_error) and re-raises it after the user code returned - for
+   formula columns AND for trigger formulas of data columns.  In the model a read of a dirty cell ends the evaluation
+   ([eval] returns ONeed) whatever the continuation would do with an error, for every cell alike. *)
+Inductive pending_reraise := ReraiseAlways | ReraiseFormulaOnly.
+Definition model_pending_reraise : pending_reraise := ReraiseAlways.
